@@ -107,6 +107,27 @@ def install():
 
     bl.SymbolicBool.to_bytes = _bool_to_bytes
 
+    # ---------------------------------------------------------------- 9
+    # dict.pop(key[, default]) on a concrete dict with a symbolic key: compare with the keys
+    # (CrossHair models get / [] / in this way, but pop hashes the key: one path per value).
+    _MISSING = object()
+
+    def _dict_pop(self, key, default=_MISSING):
+        with NoTracing():
+            plain = isinstance(key, (int, float, str)) or not isinstance(self, dict)
+        if plain:
+            if default is _MISSING:
+                return dict.pop(self, key)
+            return dict.pop(self, key, default)
+        for k in list(dict.keys(self)):
+            if k == key:
+                return dict.pop(self, k)
+        if default is _MISSING:
+            raise KeyError(key)
+        return default
+
+    core._PATCH_REGISTRATIONS[dict.pop] = _dict_pop
+
     # ---------------------------------------------------------------- 8
     # Fast paths: fully concrete arguments go to the real C functions (CrossHair's
     # Python-level codec / struct models cost ~20 us per character even for concrete data).
